@@ -113,6 +113,205 @@ fn batch_for(users: &[String], contracts: &[String]) -> Vec<QAct> {
     b
 }
 
+// ---------- shapes: a COMMITTED key is overwritten / removed, then read later in the same transaction ----------
+fn fresh(g: &mut G) -> u64 {
+    let n = g.next_node;
+    g.next_node += 1;
+    n
+}
+/// the writer's actions on key k (k is committed below the transaction)
+fn writer_acts(variant: u64, k: &[u8], n: u64) -> Vec<Action> {
+    let v1 = vec![(n & 255) as u8, 1];
+    let v2 = vec![(n & 255) as u8, 2];
+    match variant % 5 {
+        0 => vec![Action::Write(k.to_vec(), v1), Action::Remove(k.to_vec())],
+        1 => vec![Action::Remove(k.to_vec())],
+        2 => vec![Action::Write(k.to_vec(), v1)],
+        3 => vec![Action::Write(k.to_vec(), v1), Action::Remove(k.to_vec()), Action::Write(k.to_vec(), v2)],
+        _ => vec![Action::Remove(k.to_vec()), Action::Write(k.to_vec(), v2), Action::Remove(k.to_vec())],
+    }
+}
+fn reader_prog(n: u64, qn: u64, c: &str, k: &[u8], other: &[u8]) -> Prog {
+    leaf(
+        n,
+        vec![
+            marker(n),
+            Action::Q(QAct::Raw(c.to_string(), k.to_vec())),
+            Action::Q(QAct::Raw(c.to_string(), other.to_vec())),
+            Action::Q(QAct::Smart(c.to_string(), Box::new(QProg { node: qn, acts: vec![QAct::Read(k.to_vec()), QAct::Dump], ans: Some(vec![7]) }))),
+        ],
+    )
+}
+/// one shape as a top-level step; `c` holds the committed keys `k` and `other`
+fn shape_op(g: &mut G, shape: u64, variant: u64, sender: &str, c: &str, c2: &str, k: &[u8], other: &[u8]) -> TopOp {
+    let n = fresh(g);
+    let mut acts = vec![marker(n)];
+    acts.extend(writer_acts(variant, k, n));
+    match shape % 4 {
+        // same body: its own get / range after its own write + remove
+        0 => {
+            acts.push(Action::Q(QAct::Read(k.to_vec())));
+            acts.push(Action::Q(QAct::Dump));
+            acts.push(Action::Q(QAct::Read(other.to_vec())));
+            TopOp::Exec { sender: sender.into(), m: Msg::Exec { c: c.into(), p: leaf(n, acts), funds: vec![] } }
+        }
+        // the first sub-message (another contract, or the same one) queries the parent after the parent's body finished
+        1 => {
+            let (n2, q2, n3, n4) = (fresh(g), fresh(g), fresh(g), fresh(g));
+            let target = if variant % 2 == 0 { c2 } else { c };
+            let sub = Sub {
+                id: 1,
+                payload: vec![],
+                ro: if variant % 3 == 0 { ReplyOnS::Success } else { ReplyOnS::Never },
+                m: Box::new(Msg::Exec { c: target.into(), p: reader_prog(n2, q2, c, k, other), funds: vec![] }),
+                on_ok: leaf(n3, vec![marker(n3), Action::Q(QAct::Read(k.to_vec())), Action::Q(QAct::Raw(c.to_string(), k.to_vec()))]),
+                on_err: leaf(n4, vec![marker(n4)]),
+            };
+            let p = Prog { node: n, acts, out: Output::Resp { attrs: vec![], events: vec![], data: None, subs: vec![sub] } };
+            TopOp::Exec { sender: sender.into(), m: Msg::Exec { c: c.into(), p, funds: vec![] } }
+        }
+        // the next message of one execute_multi
+        2 => {
+            let (n2, q2) = (fresh(g), fresh(g));
+            TopOp::ExecMulti {
+                sender: sender.into(),
+                ms: vec![Msg::Exec { c: c.into(), p: leaf(n, acts), funds: vec![] }, Msg::Exec { c: c2.into(), p: reader_prog(n2, q2, c, k, other), funds: vec![] }],
+            }
+        }
+        // through sudo, with an instantiate (whose body queries the parent) as the first sub-message
+        _ => {
+            let (n2, q2, n3, n4) = (fresh(g), fresh(g), fresh(g), fresh(g));
+            let sub = Sub {
+                id: 2,
+                payload: vec![2],
+                ro: ReplyOnS::Never,
+                m: Box::new(Msg::Inst { code_id: 1, p: reader_prog(n2, q2, c, k, other), funds: vec![], label: "L".into(), admin: None, salt: None }),
+                on_ok: leaf(n3, vec![marker(n3)]),
+                on_err: leaf(n4, vec![marker(n4)]),
+            };
+            TopOp::WasmSudo { c: c.into(), p: Prog { node: n, acts, out: Output::Resp { attrs: vec![], events: vec![], data: None, subs: vec![sub] } } }
+        }
+    }
+}
+fn inst_with_funds(g: &mut G, sender: &str, nested_under: Option<&str>) -> TopOp {
+    let n = fresh(g);
+    let code_id = *g.rng.pick(&[1u64, 2, 9]);
+    let funds = if g.rng.chance(1, 3) { vec![coin("uatom", 3), coin("btc", 1)] } else { vec![coin("uatom", 1 + g.rng.below(5) as u128)] };
+    let inst = Msg::Inst { code_id, p: leaf(n, vec![marker(n)]), funds, label: "F".into(), admin: None, salt: if g.rng.chance(1, 4) { Some(vec![n as u8]) } else { None } };
+    match nested_under {
+        None => TopOp::Exec { sender: sender.into(), m: inst },
+        Some(c) => {
+            let (n0, n3, n4) = (fresh(g), fresh(g), fresh(g));
+            let sub = Sub { id: 3, payload: vec![], ro: ReplyOnS::Success, m: Box::new(inst), on_ok: leaf(n3, vec![marker(n3)]), on_err: leaf(n4, vec![marker(n4)]) };
+            let p = Prog { node: n0, acts: vec![marker(n0)], out: Output::Resp { attrs: vec![], events: vec![], data: None, subs: vec![sub] } };
+            TopOp::Exec { sender: sender.into(), m: Msg::Exec { c: c.into(), p, funds: vec![coin("uatom", 9)] } }
+        }
+    }
+}
+/// 2-4 shape steps, to be placed right after the setup (where "a" and the instantiate markers are committed)
+fn shape_steps(g: &mut G, k_contracts: usize) -> Vec<Step> {
+    let b = G::block0();
+    let mut steps = vec![];
+    let n = 2 + g.rng.below(3);
+    for _ in 0..n {
+        let sender = g.some_user();
+        let i = g.rng.below(k_contracts as u64) as usize;
+        let j = (i + 1 + g.rng.below((k_contracts - 1).max(1) as u64) as usize) % k_contracts;
+        let (c, c2) = (g.contracts[i].clone(), g.contracts[j].clone());
+        let mk = format!("m{}", i + 1).into_bytes();
+        let (k, other) = if g.rng.chance(1, 2) { (b"a".to_vec(), mk) } else { (mk, b"a".to_vec()) };
+        let op = if g.rng.chance(1, 4) {
+            let under = if g.rng.chance(1, 3) { Some(c.as_str()) } else { None };
+            inst_with_funds(g, &sender, under)
+        } else {
+            let (shape, variant) = (g.rng.below(4), g.rng.below(5));
+            shape_op(g, shape, variant, &sender, &c, &c2, &k, &other)
+        };
+        steps.push(Step { block: b.clone(), op });
+    }
+    steps
+}
+
+// ---------- second pass: the own-balance probe of an instantiate needs the new contract's address ----------
+fn probe_prog(p: &mut Prog, funds: &[CoinS], addr_of: &std::collections::BTreeMap<u64, String>) {
+    if let (Some(f), Some(a)) = (funds.first(), addr_of.get(&p.node)) {
+        let at = 1.min(p.acts.len());
+        p.acts.insert(at, Action::Q(QAct::Balance(a.clone(), f.denom.clone())));
+    }
+}
+fn probe_tree_prog(p: &mut Prog, addr_of: &std::collections::BTreeMap<u64, String>) {
+    if let Output::Resp { subs, .. } = &mut p.out {
+        for s in subs.iter_mut() {
+            probe_msg(&mut s.m, addr_of);
+            probe_tree_prog(&mut s.on_ok, addr_of);
+            probe_tree_prog(&mut s.on_err, addr_of);
+        }
+    }
+}
+fn probe_msg(m: &mut Msg, addr_of: &std::collections::BTreeMap<u64, String>) {
+    match m {
+        Msg::Inst { p, funds, .. } => {
+            probe_prog(p, funds, addr_of);
+            probe_tree_prog(p, addr_of);
+        }
+        Msg::Exec { p, .. } | Msg::Migrate { p, .. } => probe_tree_prog(p, addr_of),
+        _ => {}
+    }
+}
+/// run once, learn the address every instantiate program was told, insert `Balance(self, first attached denom)`
+/// right after its marker
+fn add_inst_probes(sc: &mut Scenario, batch: &[QAct]) {
+    let obs = run_scenario_q(sc, &batch[..0]);
+    let mut addr_of = std::collections::BTreeMap::new();
+    for o in &obs {
+        for e in &o.step.trace {
+            if let Entry::Call { node, ep: Ep::Inst, callee, .. } = e {
+                addr_of.insert(*node, callee.clone());
+            }
+        }
+    }
+    for st in sc.steps.iter_mut() {
+        match &mut st.op {
+            TopOp::ExecMulti { ms, .. } => ms.iter_mut().for_each(|m| probe_msg(m, &addr_of)),
+            TopOp::Exec { m, .. } => probe_msg(m, &addr_of),
+            TopOp::HelperInst { p, funds, .. } => {
+                probe_prog(p, funds, &addr_of);
+                probe_tree_prog(p, &addr_of)
+            }
+            TopOp::WasmSudo { p, .. } | TopOp::HelperMigrate { p, .. } | TopOp::HelperExec { p, .. } => probe_tree_prog(p, &addr_of),
+            _ => {}
+        }
+    }
+}
+
+/// fixed corpus: every shape x every writer variant, each preceded by a call that re-commits the key
+fn fixed_shapes() -> (Scenario, Vec<QAct>) {
+    let mut rng = common::Rng::new(4242);
+    let mut g = G::new(&mut rng, Cfg::default());
+    let mut steps = g.setup(2);
+    let users = g.users.clone();
+    let (c, c2) = (g.contracts[0].clone(), g.contracts[1].clone());
+    let b = G::block0();
+    for shape in 0..4u64 {
+        for variant in 0..5u64 {
+            let n = fresh(&mut g);
+            steps.push(Step {
+                block: b.clone(),
+                op: TopOp::Exec { sender: users[0].clone(), m: Msg::Exec { c: c.clone(), p: leaf(n, vec![marker(n), Action::Write(b"a".to_vec(), vec![77, shape as u8, variant as u8])]), funds: vec![] } },
+            });
+            let op = shape_op(&mut g, shape, variant, &users[1], &c, &c2, b"a", b"m1");
+            steps.push(Step { block: b.clone(), op });
+        }
+    }
+    let u1 = users[1].clone();
+    steps.push(Step { block: b.clone(), op: inst_with_funds(&mut g, &u1, None) });
+    steps.push(Step { block: b.clone(), op: inst_with_funds(&mut g, &u1, Some(c.as_str())) });
+    let mut sc = Scenario { codes: g.codes.clone(), steps, users: users.clone() };
+    let batch = vec![QAct::Raw(c.clone(), b"a".to_vec()), QAct::Balance(c.clone(), "uatom".into()), QAct::Info(c2.clone())];
+    add_inst_probes(&mut sc, &batch);
+    (sc, batch)
+}
+
 fn fixed_scenarios() -> Vec<(Scenario, Vec<QAct>)> {
     let codes = default_codes();
     let (alice, bob, carol) = (user("alice"), user("bob"), user("carol"));
@@ -173,6 +372,34 @@ fn fixed_scenarios() -> Vec<(Scenario, Vec<QAct>)> {
     vec![(sc, batch)]
 }
 
+fn find_in_prog(p: &Prog, node: u64) -> Option<&Prog> {
+    if p.node == node {
+        return Some(p);
+    }
+    if let Output::Resp { subs, .. } = &p.out {
+        for s in subs {
+            if let Some(x) = find_in_msg(&s.m, node).or_else(|| find_in_prog(&s.on_ok, node)).or_else(|| find_in_prog(&s.on_err, node)) {
+                return Some(x);
+            }
+        }
+    }
+    None
+}
+fn find_in_msg(m: &Msg, node: u64) -> Option<&Prog> {
+    match m {
+        Msg::Exec { p, .. } | Msg::Inst { p, .. } | Msg::Migrate { p, .. } => find_in_prog(p, node),
+        _ => None,
+    }
+}
+fn find_prog(op: &TopOp, node: u64) -> Option<&Prog> {
+    match op {
+        TopOp::ExecMulti { ms, .. } => ms.iter().find_map(|m| find_in_msg(m, node)),
+        TopOp::Exec { m, .. } => find_in_msg(m, node),
+        TopOp::WasmSudo { p, .. } | TopOp::HelperInst { p, .. } | TopOp::HelperMigrate { p, .. } | TopOp::HelperExec { p, .. } => find_in_prog(p, node),
+        _ => None,
+    }
+}
+
 fn emit10(out: &mut Out, sc: &Scenario, batch: &[QAct], extra: serde_json::Value) {
     let obs = run_scenario_q(sc, batch);
     let mut in_contract = 0u64;
@@ -188,6 +415,40 @@ fn emit10(out: &mut Out, sc: &Scenario, batch: &[QAct], extra: serde_json::Value
             },
             _ => None,
         };
+        // clause 12: a top-level instantiate with funds whose program first asks for the new contract's balance, and ran
+        let root_inst = match &st.op {
+            TopOp::Exec { m: Msg::Inst { p, funds, .. }, .. } => Some((p, funds)),
+            TopOp::HelperInst { p, funds, .. } => Some((p, funds)),
+            TopOp::ExecMulti { ms, .. } => match ms.first() {
+                Some(Msg::Inst { p, funds, .. }) => Some((p, funds)),
+                _ => None,
+            },
+            _ => None,
+        };
+        if let Some((p, funds)) = root_inst {
+            let firstq = p.acts.iter().find_map(|a| if let Action::Q(q) = a { Some(q) } else { None });
+            if let Some(Entry::Call { node, callee, ep: Ep::Inst, .. }) = o.step.trace.first() {
+                if !funds.is_empty() && *node == p.node && matches!(firstq, Some(QAct::Balance(a, _)) if a == callee) {
+                    out.stat("inst_funds_seen_pattern_checked", 1);
+                }
+            }
+        }
+        // clause 10: a body that ran reads a key after writing / removing it itself
+        for e in &o.step.trace {
+            if let Entry::Call { node, .. } = e {
+                if let Some(p) = find_prog(&st.op, *node) {
+                    let mut touched: Vec<&Vec<u8>> = vec![];
+                    for a in &p.acts {
+                        match a {
+                            Action::Write(k, _) | Action::Remove(k) => touched.push(k),
+                            Action::Q(QAct::Read(k)) if touched.contains(&k) => out.stat("read_your_writes_reads", 1),
+                            Action::Q(QAct::Smart(..)) => break,
+                            _ => {}
+                        }
+                    }
+                }
+            }
+        }
         if let Some((c, p, funds)) = root {
             let firstq = p.acts.iter().find_map(|a| if let Action::Q(q) = a { Some(q) } else { None });
             let ran = matches!(o.step.trace.first(), Some(Entry::Call { node, .. }) if *node == p.node);
@@ -250,7 +511,7 @@ fn emit10(out: &mut Out, sc: &Scenario, batch: &[QAct], extra: serde_json::Value
 fn main() {
     let args = common::parse_args("C10");
     let mut out = Out::new(&args.out, HEADER);
-    let rule = "scenarios whose message trees carry query actions at every node (bank balance/all/supply, raw, smart nested, contract-info, code-info; the callee's own balance right after attached funds) plus a batch of App-level queries (incl. smart nested 3 deep, staking, custom) issued twice after every top-level call with raw-store digests around each batch; distinct by SHA-256; non-trivial = a contract observed something mid-transaction and the scenario has a call with funds, a reply after a failed child, or a failed top-level call";
+    let rule = "scenarios whose message trees carry query actions at every node (bank balance/all/supply, raw, smart nested, contract-info, code-info; the callee's own balance right after attached funds) plus a batch of App-level queries (incl. smart nested 3 deep, staking, custom) issued twice after every top-level call with raw-store digests around each batch; 2-4 steps per scenario in which a COMMITTED key is overwritten and/or removed and then read later in the same transaction (same body, first sub-message's raw/smart query on the parent, next message of an execute_multi, instantiate as sub-message) or an instantiate with funds probes its own balance (address learned in a first pass); a fixed corpus of every shape x writer variant; distinct by SHA-256; non-trivial = a contract observed something mid-transaction and the scenario has a call with funds, a reply after a failed child, or a failed top-level call";
     if let Some(p) = &args.replay {
         let v: serde_json::Value = serde_json::from_slice(&std::fs::read(p).unwrap()).unwrap();
         let case = v.get("case").unwrap_or(&v);
@@ -262,6 +523,10 @@ fn main() {
     }
     for (sc, batch) in fixed_scenarios() {
         emit10(&mut out, &sc, &batch, serde_json::json!({"fixed": true}));
+    }
+    {
+        let (sc, batch) = fixed_shapes();
+        emit10(&mut out, &sc, &batch, serde_json::json!({"fixed": "shapes"}));
     }
     let mut cfg = Cfg::default();
     cfg.queries = true;
@@ -280,7 +545,13 @@ fn main() {
         let mut sc = g.scenario(k);
         let n_setup = sc.users.len() + k;
         sprinkle(&mut g, &mut sc, n_setup);
+        // the overwrite / remove / read shapes go right after the setup, where the keys they use are committed
+        let shapes = shape_steps(&mut g, k);
+        let tail = sc.steps.split_off(n_setup);
+        sc.steps.extend(shapes);
+        sc.steps.extend(tail);
         let batch = batch_for(&sc.users, &g.contracts);
+        add_inst_probes(&mut sc, &batch);
         emit10(&mut out, &sc, &batch, serde_json::json!({}));
     }
     finish(out, 7, rule);
